@@ -4,6 +4,7 @@ import TF.Proofs.PolyNttBridge
 import TF.Proofs.PolyNttBridgeX
 import TF.Proofs.GenBridgePoly
 import TF.Proofs.GenBridgePolyMul
+import TF.Proofs.GenBridgePolyPow
 /-!
 # C07 — every polynomial multiplication strategy returns the exact ring product
 
@@ -839,4 +840,33 @@ theorem gen_dispatchers_transfer {T : Transform K} {pts : Nat → Nat → K} (hT
 example : TransformSpec exampleTransform examplePts := exampleTransform_spec
 
 end transfer2
+
+/-! ### S4: `Polynomial::pow` regenerated from source
+
+`pow` (the `let Some(bit_length) = pow.checked_ilog2() else { return one }` special case `0⁰ = 1`, the zero-base early return, the
+square-and-multiply loop `for i in 0..=bit_length` with `pow >> (bit_length - i) & 1`, `slow_square` and `*`) is regenerated
+from `polynomial.rs` on every run (`TF.Gen.Poly.pow` / `pow_for`) and proved equal to the hand model `pow` / `powLoop` for every
+`u32` exponent.  `gen = some model` also says that nothing panics: `bit_length - i` never underflows, the shift amount stays
+below 32 (`ushr?`), and the squarings/products have no index panic.  Proof: `TF/Proofs/GenBridgePolyPow.lean`. -/
+
+/-- **regenerated `pow` = hand model**, every `u32` exponent, every storage of the base; it never panics -/
+theorem gen_pow_eq_model {α : Type} (F : FieldOps α) (h : AddLaws F) (p : List α) (e : Nat) (he : e < 2 ^ 32) :
+    TF.Gen.Poly.pow F p e = some (pow F p e) := pow_eq F h p e he
+example : TF.Gen.Poly.pow bfieldOps [1, 1, 0] 5 = some [1, 5, 10, 10, 5, 1] ∧ pow bfieldOps [1, 1, 0] 5 = [1, 5, 10, 10, 5, 1] ∧
+    TF.Gen.Poly.pow bfieldOps [0, 0] 0 = some [1] ∧ TF.Gen.Poly.pow bfieldOps [0, 0] 3 = some [] := by decide
+
+section transfer3
+variable {K : Type} [Field K] (root : Nat → Option K)
+local notation "FK" => FieldOps.ofField K root
+open Polynomial
+
+/-- **`pow_spec` for the regenerated code**: over every field the regenerated `pow` returns (never panics) and returns the
+    `e`-th power in `K[X]`, for every `u32` exponent (`0⁰ = 1` included) and every storage of the base -/
+theorem gen_pow_transfer (p : List K) (e : Nat) (he : e < 2 ^ 32) :
+    ∃ r, TF.Gen.Poly.pow FK p e = some r ∧ denote r = denote p ^ e :=
+  ⟨_, gen_pow_eq_model FK (add_laws_of_field root) p e he, pow_spec root p e⟩
+example : ∃ r, TF.Gen.Poly.pow (FieldOps.ofField ℚ) [1, 2, 0] 7 = some r ∧ denote r = denote ([1, 2, 0] : List ℚ) ^ 7 :=
+  gen_pow_transfer _ _ _ (by norm_num)
+
+end transfer3
 end TF.C07
